@@ -167,11 +167,14 @@ Qed.
 Lemma ops_of_A c : okA (fun _ => True) (ops_of c).
 Proof. unfold ops_of. abind; [apply okA_read|]. now apply okA_ret. Qed.
 
+Lemma cregs_of_A c : okA (fun _ => True) (cregs_of c).
+Proof. unfold cregs_of. abind; [apply okA_read|]. now apply okA_ret. Qed.
+
 Definition tgt_co (co : addr * list addr) : Prop := tgt (fst co) /\ Forall tgt (snd co).
 
 Lemma circuit_copy_A deep c : okA tgt_co (circuit_copy deep c).
 Proof.
-  unfold circuit_copy. abind; [apply ops_of_A|].
+  unfold circuit_copy. abind; [apply ops_of_A|]. abind; [apply cregs_of_A|].
   abind; [apply okA_mapM; intros; apply copy_op_A|].
   abind; [apply okA_alloc|]. apply okA_ret. split; auto.
 Qed.
@@ -191,10 +194,10 @@ Proof.
 Qed.
 
 Lemma set_op_A c i g : tgt c -> okA (fun _ => True) (set_op c i g).
-Proof. intros T. unfold set_op. abind; [apply ops_of_A|]. now apply okA_write. Qed.
+Proof. intros T. unfold set_op. abind; [apply ops_of_A|]. abind; [apply cregs_of_A|]. now apply okA_write. Qed.
 
 Lemma insert_op_A c i g : tgt c -> okA (fun _ => True) (insert_op c i g).
-Proof. intros T. unfold insert_op. abind; [apply ops_of_A|]. now apply okA_write. Qed.
+Proof. intros T. unfold insert_op. abind; [apply ops_of_A|]. abind; [apply cregs_of_A|]. now apply okA_write. Qed.
 
 Lemma pcq_loop_A c spans (P : addr -> Prop) : tgt c -> (forall a, tgt a -> P a) ->
   forall ops i, Forall P ops -> okA (Forall P) (pcq_loop c i ops spans).
@@ -300,7 +303,7 @@ Qed.
 
 Lemma cut_wires_A m c : okA (fun _ => True) (cut_wires m c).
 Proof.
-  unfold cut_wires. abind; [apply ops_of_A|].
+  unfold cut_wires. abind; [apply ops_of_A|]. abind; [apply cregs_of_A|].
   abind; [apply okA_mapM with (fr := fun _ => True); intros; apply wire_piece_A|].
   eapply okA_true; apply okA_alloc.
 Qed.
@@ -335,12 +338,19 @@ Proof.
   - apply IH.
 Qed.
 
+Lemma slot_item_A m a : okA (fun _ => True) (slot_item m a).
+Proof.
+  unfold slot_item. abind; [apply okA_read|].
+  assert (D : okA (fun _ : addr => True) (if fix11 m then copy_leaf a else ret a)).
+  { destruct (fix11 m); [eapply okA_true; apply copy_leaf_A|now apply okA_ret]. }
+  destruct x; auto. destruct k; auto. eapply okA_true; apply okA_alloc.
+Qed.
+
 Lemma slot_ops_A m maps i : okA (fun _ => True) (slot_ops m maps i).
 Proof.
   unfold slot_ops. destruct (nth_error maps i); [|now apply okA_ret].
   abind; [apply okA_read|]. destruct x; try now apply okA_ret.
-  destruct (fix11 m); [|now apply okA_ret].
-  eapply okA_true. apply okA_mapM. intros; apply copy_leaf_A.
+  eapply okA_true. apply okA_mapM with (fr := fun _ => True). intros; apply slot_item_A.
 Qed.
 
 Lemma splice_piece_A m a : okA (fun _ => True) (splice_piece m a).
@@ -359,7 +369,7 @@ Lemma dqi_body_A m c ops ids mids : tgt c -> Forall tgt ops -> okA (fun _ => Tru
 Proof.
   intros T F. unfold dqi_body. abind; [apply set_bids_A; auto|].
   abind; [apply okA_mapM with (fr := fun _ => True); intros; apply splice_piece_A|].
-  now apply okA_write.
+  abind; [apply cregs_of_A|]. now apply okA_write.
 Qed.
 
 Lemma dqi_A m c ids mids : okA (fun _ => True) (decompose_qpd_instructions m false c ids mids).
@@ -423,7 +433,7 @@ Proof.
   split; auto.
 Qed.
 
-Definition ops_at (h : heap) (c : addr) : list addr := match get h c with OCirc ops => ops | _ => [] end.
+Definition ops_at (h : heap) (c : addr) : list addr := match get h c with OCirc ops _ => ops | _ => [] end.
 
 Lemma pcq_inplace_eq m c spans h :
   partition_circuit_qubits m true c spans h = (ops' <- pcq_loop c 0 (ops_at h c) spans ;; ret (c, ops')) h.
@@ -775,9 +785,12 @@ Qed.
 Lemma ops_of_any_B Ph pre c : okB Ph pre (ops_of c) (fun _ => ([], [])).
 Proof. unfold ops_of. apply okB_read_any. intros o. apply okB_ret. fin. Qed.
 
+Lemma cregs_of_B Ph pre c : okB Ph pre (cregs_of c) (fun _ => ([], [])).
+Proof. unfold cregs_of. apply okB_read_any. intros o. apply okB_ret. fin. Qed.
+
 Lemma circuit_copy_deep_B Ph pre c : okB Ph pre (circuit_copy true c) (fun co => (fst co :: snd co, [])).
 Proof.
-  unfold circuit_copy. bbind; [apply ops_of_any_B|].
+  unfold circuit_copy. bbind; [apply ops_of_any_B|]. bbind; [apply cregs_of_B|].
   bbind; [apply okB_mapM_cl; intros; apply copy_op_deep_B|].
   bbind; [apply okB_alloc_clean; unfold fadd; simpl; inc|].
   apply okB_ret. fin.
@@ -785,7 +798,7 @@ Qed.
 
 Lemma circuit_copy_sh_B Ph pre c : okB Ph pre (circuit_copy false c) (fun co => ([], fst co :: snd co)).
 Proof.
-  unfold circuit_copy. bbind; [apply ops_of_any_B|].
+  unfold circuit_copy. bbind; [apply ops_of_any_B|]. bbind; [apply cregs_of_B|].
   bbind; [apply okB_mapM_l; intros; apply copy_op_sh_any_B|].
   bbind; [apply okB_alloc_any|].
   apply okB_ret. fin.
@@ -815,16 +828,16 @@ Qed.
 
 Lemma set_op_B Ph pre c i g : In c (fst pre) -> In g (fst pre) -> okB Ph pre (set_op c i g) (fun _ => ([], [])).
 Proof.
-  intros Ic Ig. unfold set_op. bbind; [apply ops_of_clean_B; exact Ic|].
+  intros Ic Ig. unfold set_op. bbind; [apply ops_of_clean_B; exact Ic|]. bbind; [apply cregs_of_B|].
   apply okB_write_clean. simpl. intros z Hz. apply incl_upd in Hz. unfold fadd; simpl.
-  rewrite in_app_iff. destruct Hz as [<-|Hz]; auto.
+  repeat rewrite in_app_iff. destruct Hz as [<-|Hz]; auto.
 Qed.
 
 Lemma insert_op_B Ph pre c i g : In c (fst pre) -> In g (fst pre) -> okB Ph pre (insert_op c i g) (fun _ => ([], [])).
 Proof.
-  intros Ic Ig. unfold insert_op. bbind; [apply ops_of_clean_B; exact Ic|].
+  intros Ic Ig. unfold insert_op. bbind; [apply ops_of_clean_B; exact Ic|]. bbind; [apply cregs_of_B|].
   apply okB_write_clean. simpl. intros z Hz. apply incl_insert in Hz. unfold fadd; simpl.
-  rewrite in_app_iff. destruct Hz as [<-|Hz]; auto.
+  repeat rewrite in_app_iff. destruct Hz as [<-|Hz]; auto.
 Qed.
 
 Lemma pcq_loop_B c spans : forall ops i Ph pre, In c (fst pre) -> incl ops (fst pre) ->
@@ -948,7 +961,7 @@ Qed.
 
 Lemma cut_wires_B Ph pre c : okB Ph pre (cut_wires Repaired c) (fun x => ([x], [])).
 Proof.
-  unfold cut_wires. bbind; [apply ops_of_any_B|].
+  unfold cut_wires. bbind; [apply ops_of_any_B|]. bbind; [apply cregs_of_B|].
   bbind; [apply okB_mapM_c; intros; apply wire_piece_B|].
   eapply okB_post; [|apply okB_alloc_clean; unfold fadd; simpl; inc]. intros; fin.
 Qed.
@@ -994,11 +1007,20 @@ Proof.
   - apply IH.
 Qed.
 
+Lemma slot_item_B Ph pre a : okB Ph pre (slot_item Repaired a) (fun x => ([x], [])).
+Proof.
+  unfold slot_item. apply okB_read_any. intros o. simpl.
+  assert (D : okB (fun h => get h a = o) pre (copy_leaf a) (fun x => ([x], []))).
+  { eapply okB_post; [|apply copy_leaf_B]. intros; fin. }
+  destruct o; auto. destruct k; auto.
+  eapply okB_post; [|apply okB_alloc_clean; apply incl_nil_l]. intros; fin.
+Qed.
+
 Lemma slot_ops_B Ph pre maps i : okB Ph pre (slot_ops Repaired maps i) (fun xs => (xs, [])).
 Proof.
   unfold slot_ops. destruct (nth_error maps i) as [la|]; [|apply okB_ret; fin].
-  apply okB_read_any. intros o. destruct o; try solve [apply okB_ret; fin]. simpl.
-  eapply okB_post; [|apply okB_mapM_cl; intros; apply copy_leaf_B]. intros; fin.
+  apply okB_read_any. intros o. destruct o; try solve [apply okB_ret; fin].
+  apply okB_mapM_c; intros; apply slot_item_B.
 Qed.
 
 Lemma splice_piece_B Ph pre a : In a (snd pre) -> okB Ph pre (splice_piece Repaired a) (fun xs => (xs, [])).
@@ -1022,6 +1044,7 @@ Lemma dqi_body_B Ph pre c ops ids mids : In c (snd pre) -> incl ops (snd pre) ->
 Proof.
   intros Lc Lo. unfold dqi_body. bbind; [apply set_bids_B|].
   bbind; [apply okB_mapM_cc; intros a Ia; apply splice_piece_B; unfold fadd; simpl; rewrite in_app_iff; left; apply Lo; exact Ia|].
+  bbind; [apply cregs_of_B|].
   apply okB_write_promote.
   - unfold fadd; simpl. repeat rewrite in_app_iff. auto.
   - unfold fadd; simpl. inc.
@@ -1096,19 +1119,51 @@ Qed.
 
 End CleanB.
 
-(* ---- Part B, final statement: in mode Repaired nothing reachable from a result was reachable from the arguments *)
-Lemma fresh_repaired h cl : in_place cl = false ->
-  forall a, reachable (fst (run Repaired cl h)) (snd (run Repaired cl h)) a ->
-            reachable h (args_of cl) a -> In a (documented_shared cl).
+(* ---- Part B, final statements: in mode Repaired everything reachable from a result is a NEW object *)
+Lemma result_reach_new h cl : in_place cl = false ->
+  forall a, reachable (fst (run Repaired cl h)) (snd (run Repaired cl h)) a -> length h <= a.
 Proof.
-  intros NI a Rout Rin. exfalso.
+  intros NI a Rout.
   destruct (run_B h cl NI h []) as (C & _ & I & _ & [Hc _]).
   - split; [lia|]. intros x [].
   - exact Logic.I.
   - split; simpl; [apply incl_nil_l|constructor].
   - simpl in Hc. pose proof (reach_in_clean h _ C _ a I Hc Rout) as Ia.
-    destruct I as [_ F]. destruct (F a Ia) as (X & _ & _).
-    apply reachable_lt in Rin. lia.
+    destruct I as [_ F]. destruct (F a Ia) as (X & _ & _). exact X.
+Qed.
+
+(* ... hence nothing reachable from the result was reachable from ANY roots before the call *)
+Lemma fresh_repaired_gen h cl roots : in_place cl = false ->
+  forall a, reachable (fst (run Repaired cl h)) (snd (run Repaired cl h)) a -> reachable h roots a -> False.
+Proof.
+  intros NI a Rout Rin. apply result_reach_new in Rout; auto. apply reachable_lt in Rin. lia.
+Qed.
+
+Lemma fresh_repaired h cl : in_place cl = false ->
+  forall a, reachable (fst (run Repaired cl h)) (snd (run Repaired cl h)) a ->
+            reachable h (args_of cl) a -> In a (documented_shared cl).
+Proof. intros NI a Rout Rin. exfalso. eapply fresh_repaired_gen; eauto. Qed.
+
+(* destructive edits: arbitrary overwrites of objects that were reachable from the result when it was returned *)
+Definition apply_edits (h : heap) (es : list (addr * obj)) : heap :=
+  fold_left (fun h1 e => upd h1 (fst e) (snd e)) es h.
+
+Lemma apply_edits_old n : forall es h1, (forall e, In e es -> n <= fst e) ->
+  forall a, a < n -> get (apply_edits h1 es) a = get h1 a.
+Proof.
+  induction es as [|e r IH]; intros h1 H a La; simpl; [reflexivity|].
+  rewrite IH; [|intros; apply H; right; auto|auto].
+  apply get_upd_other. specialize (H e (or_introl eq_refl)). lia.
+Qed.
+
+Lemma edits_leave_old h cl : in_place cl = false ->
+  forall es, (forall e, In e es -> reachable (fst (run Repaired cl h)) (snd (run Repaired cl h)) (fst e)) ->
+  forall a, a < length h -> get (apply_edits (fst (run Repaired cl h)) es) a = get h a.
+Proof.
+  intros NI es H a La.
+  rewrite (apply_edits_old (length h)); auto.
+  - apply frame_noninplace; auto.
+  - intros e Ie. eapply result_reach_new; eauto.
 Qed.
 
 (* the computed reachability also stays inside the heap it is computed on *)
